@@ -72,9 +72,33 @@ class InputTerm:
             return self.tag == CODE[c]
         return z3.Or(*[self.tag == CODE[c] for c in sorted(ctors)])
 
-    def domain_constraints(self):
-        """Harness-level assumptions about this node's scalars (asserted by InputSpace)."""
-        return [self.idx >= 0, self.tag_in(self.allowed0)]
+    def domain_constraints(self, ex=None):
+        """Harness-level assumptions about this node's scalars (asserted when the node is first
+        touched on a path)."""
+        cs = [self.idx >= 0, self.tag_in(self.allowed0)]
+        if self.space.scope is not None and ex is not None:
+            cs.append(z3.Or(self.tag != CODE["Variable"], self.idx < self.space.scope + self.binders(ex)))
+        return cs
+
+    def binders(self, ex):
+        """Number of binders between the root and this node on the current path (upper bound when
+        an ancestor's constructor is not decided yet)."""
+        n = 0
+        node = self
+        while node.parent is not None:
+            p = node.parent
+            best = 0
+            for c in ex.allowed(p):
+                if c in ("Lambda", "Pi"):
+                    b = 1 if node.slot == 1 else 0
+                elif c.startswith("Let"):
+                    b = let_n(c) if node.slot <= 2 * let_n(c) else 0
+                else:
+                    b = 0
+                best = max(best, b)
+            n += best
+            node = p
+        return n
 
     def get_cell(self):
         if self.cell is None:
@@ -121,8 +145,11 @@ class InputTerm:
 class InputSpace:
     """Describes a family of symbolic terms: alphabets per position, depth limit, naming."""
 
-    def __init__(self, prefix, max_depth, alphabet, leaf_alphabet=None, source_ranges=True, shared_cells=None):
+    def __init__(self, prefix, max_depth, alphabet, leaf_alphabet=None, source_ranges=True, shared_cells=None, scope=None):
         self.prefix = prefix
+        # scope = n: every variable index is below n + (binders above it): well-scoped terms in a
+        # context of n variables; None: indices unconstrained
+        self.scope = scope
         self.max_depth = max_depth
         self._alphabet = alphabet
         self._leaf = leaf_alphabet
